@@ -50,6 +50,9 @@ FlightOf(d) ==
          [] d.mut = "hlplus5"     -> [f0 EXCEPT !.hl = m - 4 + 5]
          [] d.mut = "truncated20" -> [f0 EXCEPT !.recs[1].have = r1.len - 20, !.close = TRUE]
          [] d.mut = "empty"       -> [f0 EXCEPT !.recs = << >>, !.close = TRUE]
+         \* the record layer's legacy version of the first record is whatever the client's stack writes (0x0301 most,
+         \* 0x0303 SChannel / JSSE / wolfSSL, 0x0302 and 0x0300 older ones): it says nothing about the random
+         [] d.mut \in {"recver0303", "recver0302", "recver0300"} -> f0
 
 P(d, n)  == [d EXCEPT !.padto = n]
 K(d, n)  == [d EXCEPT !.ks = n]
@@ -86,7 +89,10 @@ QuickDirs == [
     m_reclenplus10  |-> Mu(D("typ"), "reclenplus10"),
     m_hlplus5       |-> Mu(D("typ"), "hlplus5"),
     m_truncated20   |-> Mu(D("typ"), "truncated20"),
-    m_empty         |-> Mu(D("min"), "empty")
+    m_empty         |-> Mu(D("min"), "empty"),
+    v_recver0303    |-> Mu(D("typ"), "recver0303"),
+    v_recver0302    |-> Mu(D("min"), "recver0302"),
+    v_recver0300    |-> Mu(D("long"), "recver0300")
 ]
 
 ThoroughDirs == QuickDirs @@ [
